@@ -490,3 +490,33 @@ func (t *Table) Parse(input []string) (reductions []int, ok bool, errAt int) {
 	}
 	return reductions, false, pos
 }
+
+// NestedKernels reports whether the LALR(1) collection contains two states such that the kernel of one
+// (as a set of LR(0) items) is a strict subset of the kernel of the other, and returns such a pair.
+func (t *Table) NestedKernels() (bool, string) {
+	sets := make([]map[string]bool, len(t.Kernels))
+	for i, k := range t.Kernels {
+		sets[i] = map[string]bool{}
+		for _, it := range strings.Fields(k) {
+			sets[i][it] = true
+		}
+	}
+	for i := range sets {
+		for j := range sets {
+			if i == j || len(sets[i]) == 0 || len(sets[i]) >= len(sets[j]) {
+				continue
+			}
+			sub := true
+			for it := range sets[i] {
+				if !sets[j][it] {
+					sub = false
+					break
+				}
+			}
+			if sub {
+				return true, fmt.Sprintf("kernel {%s} of state %d is contained in kernel {%s} of state %d", t.Kernels[i], i, t.Kernels[j], j)
+			}
+		}
+	}
+	return false, ""
+}
